@@ -32,4 +32,78 @@ theorem redact_some (h : Heap) (p : Ptr) (u : URL) (ui : Userinfo)
 theorem alloc_get (h : Heap) (u : URL) : (h.alloc u).1.get (h.alloc u).2 = .ok u := by
   simp [Heap.alloc, Heap.get]
 
+/-- `p` points to a `url.URL` that exists in `h` (it was allocated before). -/
+def Heap.Allocated (h : Heap) (p : Ptr) : Prop := ∃ v, h.get p = .ok v
+
+theorem allocated_iff (h : Heap) (p : Ptr) :
+    h.Allocated p ↔ ∃ a, p = some a ∧ a < h.cells.length := by
+  unfold Heap.Allocated
+  cases p with
+  | none => simp [Heap.get]
+  | some a =>
+    simp only [Heap.get, Option.some.injEq, exists_eq_left']
+    by_cases hlt : a < h.cells.length
+    · simp [hlt]
+    · simp [hlt]
+
+/-- A store through `q` leaves every other cell as it was and makes no cell. -/
+theorem set_get_other (h h' : Heap) (q p : Ptr) (v u : URL) (hs : h.set q v = .ok h')
+    (hne : q ≠ p) (hp : h.get p = .ok u) : h'.get p = .ok u := by
+  cases q with
+  | none => simp [Heap.set] at hs
+  | some b =>
+    cases p with
+    | none => simp [Heap.get] at hp
+    | some a =>
+      unfold Heap.set at hs
+      by_cases hlt : b < h.cells.length
+      · simp only [hlt, if_true, Except.ok.injEq] at hs
+        subst hs
+        have hba : b ≠ a := fun e => hne (by rw [e])
+        simpa [Heap.get, List.getElem?_set_ne hba] using hp
+      · simp [hlt] at hs
+
+theorem set_length (h h' : Heap) (q : Ptr) (v : URL) (hs : h.set q v = .ok h') :
+    h'.cells.length = h.cells.length := by
+  cases q with
+  | none => simp [Heap.set] at hs
+  | some b =>
+    unfold Heap.set at hs
+    by_cases hlt : b < h.cells.length
+    · simp only [hlt, if_true, Except.ok.injEq] at hs
+      subst hs
+      simp
+    · simp [hlt] at hs
+
+/-- no step of `ms` stores through `p` -/
+def NoStoreTo (p : Ptr) (ms : List Mut) : Prop := ∀ q v, Mut.store q v ∈ ms → q ≠ p
+
+/-- Stores through other pointers and new allocations leave the cell of `p` as it was, and
+the heap only grows. -/
+theorem apply_get_other (h h' : Heap) (ms : List Mut) (p : Ptr) (u : URL)
+    (ha : h.apply ms = .ok h') (hno : NoStoreTo p ms) (hp : h.get p = .ok u) :
+    h'.get p = .ok u ∧ h.cells.length ≤ h'.cells.length := by
+  induction ms generalizing h with
+  | nil =>
+    simp only [Heap.apply, Except.ok.injEq] at ha
+    subst ha
+    exact ⟨hp, Nat.le_refl _⟩
+  | cons m rest ih =>
+    have hrest : NoStoreTo p rest := fun q v hm => hno q v (List.mem_cons_of_mem _ hm)
+    cases m with
+    | store q v =>
+      have hq : q ≠ p := hno q v (List.mem_cons_self ..)
+      simp only [Heap.apply] at ha
+      cases hs : h.set q v with
+      | error e => simp [hs] at ha
+      | ok h₁ =>
+        simp only [hs] at ha
+        have := ih h₁ ha hrest (set_get_other h h₁ q p v u hs hq hp)
+        exact ⟨this.1, by rw [← set_length h h₁ q v hs]; exact this.2⟩
+    | new v =>
+      simp only [Heap.apply] at ha
+      have := ih (h.alloc v).1 ha hrest (alloc_preserves h v p u hp)
+      refine ⟨this.1, Nat.le_trans ?_ this.2⟩
+      simp [Heap.alloc]
+
 end GolibsVerif.C16
